@@ -160,7 +160,10 @@ class History(object):
                 self.possible -= 1
         elif kind == "rename":
             m = TOCRE.match(b)
-            if m and tid is not None:
+            # generation 0 is only ever written by TOC.create (index creation): with RamStorage under the tap that
+            # is the private scratch index of BufferedWriter's MemoryCodec (the tap names RAM files without their
+            # storage instance), never a commit of the index under test
+            if m and tid is not None and int(m.group(1)) > 0:
                 self.on_toc(tid, int(m.group(1)), n)
         s.on_event(n, kind, name, detail)
 
@@ -706,7 +709,10 @@ def run_thread_case(ctx, idx, rng, lines=False):
                 ctx.extra.setdefault("_inconclusive", []).append("stall")
         elif out.status != "ok":
             ctx.count("sched.inconclusive")
-            ctx.note("case %d: scheduler status %s after %d steps" % (idx, out.status, out.steps))
+            _tr, _ho = holds_of(H.events)
+            ctx.note("case %d: scheduler status %s after %d steps; threads %r; open holds %r; last tags %r; attempts %r" % (
+                idx, out.status, out.steps, sorted(out.own_steps.items()), [h for h in _ho if h["rel_post"] is None],
+                [(t.name, t.state, t.tag) for t in s.threads], wb["attempts"][-8:]))
         for name, e in sorted(out.errors.items()):
             from vf.core import whoosh_site
             site, in_harness = whoosh_site(e)
